@@ -66,8 +66,13 @@ pub fn object_valid(o: &Obj, now: Ts) -> bool {
 
 /// Payload of a CA's publication point as published in `w` (if accepted).
 pub fn point_payload(w: &World, ca: usize, now: Ts, pol: &Policy) -> CaPayload {
+    point_payload_of(&w.cas[ca], now, pol)
+}
+
+/// Payload of a publication point version given by its spec.
+pub fn point_payload_of(ca: &Ca, now: Ts, pol: &Policy) -> CaPayload {
     let mut p = CaPayload::default();
-    for o in &w.cas[ca].objects {
+    for o in &ca.objects {
         if !object_valid(o, now) { continue }
         match &o.kind {
             ObjKind::Roa { asn, prefixes } => {
